@@ -109,15 +109,33 @@ def parseAcceptHdr : Option Bytes → Option (List MRange)
   | none => some []
   | some h => if (trimSp h).isEmpty then some [] else (splitOnChar ',' h).mapM parseRange
 
-def rangeMatches (r : MRange) (mt : Bytes) : Bool :=
+/-- how specifically range `r` covers media type `mt`: 3 exact, 2 `type/*`, 1 `*/*`, 0 not at all -/
+def rangeSpecificity (r : MRange) (mt : Bytes) : Nat :=
   match splitOnChar '/' (lowerB (trimSp mt)) with
-  | [t, s] => (r.typ == ['*'] && r.sub == ['*']) || (r.typ == t && (r.sub == ['*'] || r.sub == s))
-  | _ => false
+  | [t, s] =>
+    if r.typ == t && r.sub == s then 3
+    else if r.typ == t && r.sub == ['*'] then 2
+    else if r.typ == ['*'] && r.sub == ['*'] then 1
+    else 0
+  | _ => 0
 
-/-- the client accepts media type `mt`: some range with non-zero quality covers it (no Accept header:
-    everything is acceptable) -/
+def rangeMatches (r : MRange) (mt : Bytes) : Bool := rangeSpecificity r mt > 0
+
+/-- the client accepts media type `mt` (RFC 9110 §12.5.1): the most specific range that covers it has a
+    non-zero quality — `application/json;q=0, */*` does not accept `application/json`. Several ranges of
+    that same specificity: any of them with q > 0 will do (the statement does not say). No Accept header:
+    everything is acceptable. -/
 def clientAccepts (ranges : List MRange) (mt : Bytes) : Bool :=
-  ranges.isEmpty || ranges.any fun r => r.q > 0 && rangeMatches r mt
+  ranges.isEmpty ||
+  (let best := (ranges.map fun r => rangeSpecificity r mt).foldl max 0
+   best > 0 && ranges.any fun r => rangeSpecificity r mt == best && r.q > 0)
+
+/-- the most specific ranges covering `mt` disagree (one refuses with q=0, another of the same
+    specificity takes it): the statement does not say which one speaks for the client -/
+def acceptAmbiguous (ranges : List MRange) (mt : Bytes) : Bool :=
+  let best := (ranges.map fun r => rangeSpecificity r mt).foldl max 0
+  best > 0 && (ranges.any fun r => rangeSpecificity r mt == best && r.q > 0) &&
+  (ranges.any fun r => rangeSpecificity r mt == best && r.q == 0)
 
 /-! ### which formatter may have been used -/
 
@@ -132,6 +150,7 @@ def negotiated (m : List (Bytes × Fmt)) (dflt : Bytes) (all : List Fmt) (accept
   match parseAcceptHdr accept with
   | none => all
   | some ranges =>
+    if m.any (fun kv => acceptAmbiguous ranges kv.1) then all else
     let acc := m.filter fun kv => clientAccepts ranges kv.1
     if !acc.isEmpty then acc.map (·.2)
     else if dflt.isEmpty then all   -- no default configured: the statement leaves the outcome open
